@@ -853,9 +853,9 @@ void run_one(const char * gname)
   // "every sequence over the 3-letter difference alphabet":
   //   thorough: N <= K+4 as designed; all 12 (t0,dt) pairs except for N = K+4 with K >= 5 (4-pair menu);
   //             locality N <= K+2 (the index structure does not depend on the letters)
-  //   quick   : N <= K+2 (K+4 for K <= 3, K+1 for K = 6) with the 4-pair (t0,dt) menu; locality N = K+1 for K <= 3
+  //   quick   : N <= K+4 (K <= 2), K+2 (K = 3,4), K+1 (K = 5,6) with the 4-pair (t0,dt) menu; locality N = K+1 for K <= 3
   // The ten simple families (constant, constant difference, alternating) always get the full product.
-  const SeqPolicy ev = th ? SeqPolicy{K + 4, K >= 5 ? K + 2 : K + 4} : SeqPolicy{K <= 3 ? K + 4 : (K == 6 ? K + 1 : K + 2), 0};
+  const SeqPolicy ev = th ? SeqPolicy{K + 4, K >= 5 ? K + 2 : K + 4} : SeqPolicy{K <= 2 ? K + 4 : (K <= 4 ? K + 2 : K + 1), 0};
   const SeqPolicy eq = th ? SeqPolicy{K + 4, K >= 5 ? K + 2 : K + 4} : SeqPolicy{K + 1, 0};
   const SeqPolicy lc = th ? SeqPolicy{K + 2, K + 2} : SeqPolicy{K <= 3 ? K + 1 : 0, 0};
   eval_space<K, G>(gname, A, ev);
